@@ -222,9 +222,11 @@ func genQuery(r *hx.Rng, d *dataset) query {
 			if r.Chance(50) {
 				q.offset = r.Intn(10)
 			}
+		} else if q.grp == "-" && r.Chance(6) {
+			// OFFSET without LIMIT: outside the subset (InfluxQL: "the OFFSET clause requires a
+			// LIMIT clause"); generated to keep the finding offset-without-limit on record
+			q.offset = 1 + r.Intn(6)
 		}
-		// OFFSET without LIMIT is outside the subset (InfluxQL: "the OFFSET clause requires a
-		// LIMIT clause", results are documented as inconsistent without one)
 		return q
 	}
 	n := 1
@@ -276,6 +278,17 @@ func genQuery(r *hx.Rng, d *dataset) query {
 				}
 			}
 		}
+		if r.Chance(5) {
+			numeric := true
+			for _, cl := range q.calls {
+				if cl.f != "count" && (cl.col == "fb" || cl.col == "fs") {
+					numeric = false
+				}
+			}
+			if numeric {
+				q.fill = "linear" // outside the subset: keeps the finding fill-linear on record
+			}
+		}
 		if q.grp == "-" && r.Chance(25) {
 			q.limit = 1 + r.Intn(6)
 			if r.Bool() {
@@ -284,4 +297,16 @@ func genQuery(r *hx.Rng, d *dataset) query {
 		}
 	}
 	return q
+}
+
+// outside: the class of a statement that is outside the subset and known to be answered
+// differently under different configurations ("" for a statement of the subset).
+func (q query) outside() string {
+	if !q.agg && q.limit == 0 && q.offset > 0 {
+		return "offset-without-limit"
+	}
+	if q.agg && q.interval > 0 && q.fill == "linear" {
+		return "fill-linear"
+	}
+	return ""
 }
